@@ -881,6 +881,14 @@ class Buffer:
             self.obj[...] = vals[0]
         return self.obj
 
+    def holds(self, vals):
+        """does the container still hold what the caller put in? (a call must not write into its argument)"""
+        if self.container == 'list':
+            return list(self.obj) == [self.dtype(v) for v in vals]
+        if self.container == '0-d':
+            return self.obj[()] == self.dtype(vals[0])
+        return np.array_equal(self.obj, np.array(vals, dtype=self.dtype))
+
     def scribble(self, val):
         if self.container == 'list':
             self.obj[:] = [self.dtype(val)] * len(self.obj)
@@ -971,6 +979,8 @@ def _o_buffer(case):
             for vals, _ in case['calls']:
                 arg = buf.fill(vals)
                 obj.add_border_user(arg, arg)
+                if not buf.holds(vals):
+                    return cls + ':' + kind + ':argument-modified', 'add_border_user wrote into its argument: %r -> %r' % (vals, list(buf.obj))
                 calls.append((vals, vals))
             buf.scribble(0.77)
         else:
@@ -984,6 +994,9 @@ def _o_buffer(case):
                     obj.add_border_user(a_, r_, bc)
                 else:
                     obj.add_border_user(a_, r_)
+                if not ba.holds(angs) or not br.holds(rats):
+                    return cls + ':' + kind + ':argument-modified', ('add_border_user wrote into its arguments: angles %r -> %r, ratios %r -> %r'
+                                                                      % (angs, list(ba.obj), rats, list(br.obj)))
                 calls.append((angs, rats))
                 if scen == 'modified-after-call':
                     ba.scribble(123.0)
@@ -1055,6 +1068,8 @@ def _o_buffer(case):
                         cl.add_random_users(arg, arg, None, br.fill(call['ratios']))
                     else:
                         cl.add_random_users(bi.fill(call['ids']), bn.fill(call['nums']), None, br.fill(call['ratios']))
+                        if not (bi.holds(call['ids']) and bn.holds(call['nums']) and br.holds(call['ratios'])):
+                            return cls + ':' + ctype + ':argument-modified', 'Cluster.add_random_users wrote into its arguments'
                     if scen == 'modified-after-call':
                         bi.scribble(1)
                         bn.scribble(3)
@@ -1091,6 +1106,8 @@ def _o_buffer(case):
                     cl.add_border_users(arg, arg, arg)
                 else:
                     cl.add_border_users(bi.fill(call['ids']), ba.fill(call['angles']), br.fill(call['ratios']))
+                    if not (bi.holds(call['ids']) and ba.holds(call['angles']) and br.holds(call['ratios'])):
+                        return cls + ':' + ctype + ':argument-modified', 'Cluster.add_border_users wrote into its arguments'
                 if scen == 'modified-after-call':
                     bi.scribble(1)
                     ba.scribble(10.0)
